@@ -133,8 +133,8 @@ class O:
 
 
 CONCRETE = {"L2Cost": "skchange.costs.l2_cost", "GaussianVarCost": "skchange.costs.gaussian_var_cost", "CUSUM": "skchange.change_scores.cusum",
-            "L2Saving": "skchange.anomaly_scores.l2_saving"}
-CUT_ENTRIES = {"L2Cost": 2, "GaussianVarCost": 2, "CUSUM": 3, "L2Saving": 2}
+            "L2Saving": "skchange.anomaly_scores.l2_saving", "GaussianCovCost": "skchange.costs.gaussian_cov_cost"}
+CUT_ENTRIES = {"L2Cost": 2, "GaussianVarCost": 2, "CUSUM": 3, "L2Saving": 2, "GaussianCovCost": 2}
 
 
 # ----------------------------------------------------------------------------- clause compilation
@@ -227,7 +227,14 @@ def base_env(repo):
         _, betas = mv.intermediate_mvcapa_penalty(int(n), int(p), int(k), float(scale))
         return R(float(np.sum(betas[: int(q)])))
 
+    def _cov(X, *se):
+        a = X.a if not se else X.a[int(se[0]):int(se[1])]
+        pp = a.shape[1]
+        cov = np.cov(a, rowvar=False, ddof=0).reshape(pp, pp)
+        return np.linalg.slogdet(cov)
+
     env = {
+        "LOGDETCOV": lambda X, *se: R(float(_cov(X, *se)[1])), "COVPD": lambda X, *se: bool(_cov(X, *se)[0] > 0),
         "forall": _forall, "exists": _exists, "iff": lambda a, b: bool(a) == bool(b), "len": len, "range": range, "min": min, "max": max, "abs": abs,
         "shape": lambda a: a.shape, "SUM": lambda X, j, s, e: R(sum(_col(X, j, s, e))), "SSQ": lambda X, j, s, e: R(sum(x * x for x in _col(X, j, s, e))),
         "SQDEV": _sqdev, "RSS": _rss, "PrefixSum": _prefix(False), "PrefixSumSq": _prefix(True),
@@ -368,6 +375,13 @@ def smart(c, vals, dims, rng, ghosts=None):
             vals["starts"][i], vals["ends"][i] = pts[0], pts[-1]
             if "splits" in names:
                 vals["splits"][i] = pts[1]
+    if {"starts", "ends", "X"} <= names and "sums" not in names and isinstance(vals.get("X"), np.ndarray):
+        n = vals["X"].shape[0]
+        if n < 1:
+            raise _Reject()
+        for i in range(len(vals["starts"])):
+            a_ = rng.randint(0, n - 1)
+            vals["starts"][i], vals["ends"][i] = a_, rng.randint(a_ + 1, n)
     if "prev_cpts" in names:
         a = vals["prev_cpts"]
         for u in range(1, len(a) + 1):
